@@ -182,6 +182,11 @@ def go (q : Quirks) (K : Kernel) (n : Nat) :
 def decompile (q : Quirks) (K : Kernel) (n : Nat) (gs : List AGate) : Except String (List Section) :=
   go q K n 0 none [] none gs
 
+/-- the message of a raised exception -/
+def errMsg {α : Type} : Except String α → Option String
+  | .error e => some e
+  | .ok _ => none
+
 /-- inputs on which the code as it is departs from the repaired code -/
 def triggers (q : Quirks) (gs : List AGate) : Bool :=
   gs.any (fun g =>
